@@ -1,4 +1,5 @@
 _TX = {"src": "checks/tx.cpp", "deps": ["checks/tx.hpp"]}
+_SMALL_POOLS = ["ARDUINOJSON_POOL_CAPACITY=4", "ARDUINOJSON_INITIAL_POOL_COUNT=1"]
 _TSAN_ENV = {"TSAN_OPTIONS": "halt_on_error=1 exitcode=66 second_deadlock_stack=1"}
 
 PROPS["C20"] = {
@@ -28,12 +29,17 @@ PROPS["C20"] = {
         dict(_TX, mode="selftest", flavour="sanmt", shards=1),
         dict(_TX, mode="sched", flavour="sanmt", shards=16, args=["--threads=2", "--P=2"]),
         dict(_TX, mode="tsan", flavour="tsan", shards=1, env=_TSAN_ENV, args=["--iters=2000"]),
+        # 4-slot pools: the shared read-only document (and every thread's own documents) spans several pools
+        dict(_TX, mode="sched", flavour="sanmt", shards=16, args=["--threads=2", "--P=1"], defs=_SMALL_POOLS),
+        dict(_TX, mode="tsan", flavour="tsan", shards=1, env=_TSAN_ENV, args=["--iters=1000"], defs=_SMALL_POOLS),
     ],
     "thorough": [
         dict(_TX, mode="selftest", flavour="sanmt", shards=1),
         dict(_TX, mode="sched", flavour="sanmt", shards=16, args=["--threads=2", "--P=3"]),
         dict(_TX, mode="sched", flavour="sanmt", shards=16, args=["--threads=3", "--P=2"]),
         dict(_TX, mode="tsan", flavour="tsan", shards=1, env=_TSAN_ENV, args=["--iters=20000"]),
+        dict(_TX, mode="sched", flavour="sanmt", shards=16, args=["--threads=2", "--P=2"], defs=_SMALL_POOLS),
+        dict(_TX, mode="tsan", flavour="tsan", shards=1, env=_TSAN_ENV, args=["--iters=5000"], defs=_SMALL_POOLS),
     ],
     "thorough_deadline": 840,
 }
